@@ -38,10 +38,13 @@ Section Check.
       | _ => match c_lower c, c_upper c with None, None => true | _, _ => false end
       end) pool.
 
-  Fixpoint assignments (vs : list nat) (cand : nat -> list ty) : list theta :=
+  (* at most [cap] groundings; truncated after every variable so that the
+     product is never built in full *)
+  Fixpoint assignments (cap : nat) (vs : list nat) (cand : nat -> list ty) : list theta :=
     match vs with
     | [] => [[]]
-    | v :: r => flat_map (fun t => map (cons (v, t)) (assignments r cand)) (cand v)
+    | v :: r => firstn cap (flat_map (fun th => map (fun t => (v, t) :: th) (cand v))
+                                     (assignments cap r cand))
     end.
 
   Definition all_vars (fuel : nat) (s : store) (vals : list tyv) : list nat :=
@@ -65,7 +68,7 @@ Section Check.
     | None =>
         let steps := map (fun '(f, x, n) => (val vals f, val vals x, val vals n)) (steps_of cs 0) in
         let vs := all_vars fuel s vals in
-        let ths := firstn cap (assignments vs (cands pool s)) in
+        let ths := assignments cap vs (cands pool s) in
         [40;
          Nat.b2n (all_steps_ok H fuel s ths (TOp Top []) steps);
          Nat.b2n (constraints_ok fuel s);
